@@ -351,7 +351,7 @@ func (t *ImmutableTree) getRangeProof(keyStart, keyEnd []byte, limit int) (proof
 	_stop := false
 	if limit == 1 {
 		_stop = true // case 1
-	} else if keyEnd != nil && bytes.Compare(cpIncr(left.key), keyEnd) >= 0 {
+	} else if keyEnd != nil && bytes.Compare(keyAfter(left.key), keyEnd) >= 0 {
 		_stop = true // case 2
 	}
 	if _stop {
@@ -362,7 +362,7 @@ func (t *ImmutableTree) getRangeProof(keyStart, keyEnd []byte, limit int) (proof
 	}
 
 	// Get the key after left.key to iterate from.
-	afterLeft := cpIncr(left.key)
+	afterLeft := keyAfter(left.key)
 
 	// Traverse starting from afterLeft, until keyEnd or the next leaf
 	// after keyEnd.
@@ -419,7 +419,7 @@ func (t *ImmutableTree) getRangeProof(keyStart, keyEnd []byte, limit int) (proof
 				values = append(values, node.value)
 				// Terminate if we've found keyEnd-1 or after.
 				// We don't want to fetch any leaves for it.
-				if keyEnd != nil && bytes.Compare(cpIncr(node.key), keyEnd) >= 0 {
+				if keyEnd != nil && bytes.Compare(keyAfter(node.key), keyEnd) >= 0 {
 					return true
 				}
 
@@ -454,7 +454,7 @@ func (t *ImmutableTree) getRangeProof(keyStart, keyEnd []byte, limit int) (proof
 // GetWithProof gets the value under the key if it exists, or returns nil.
 // A proof of existence or absence is returned alongside the value.
 func (t *ImmutableTree) GetWithProof(key []byte) (value []byte, proof *RangeProof, err error) {
-	proof, _, values, err := t.getRangeProof(key, cpIncr(key), 2)
+	proof, _, values, err := t.getRangeProof(key, keyAfter(key), 2)
 	if err != nil {
 		return nil, nil, errors.Wrap(err, "constructing range proof")
 	}
